@@ -1,5 +1,6 @@
 (* ConnectAllProofs.v -- per-hint containment and no-stall for the model of TubConnector.connectToAll (ConnectAll.v),
-   for ALL hint lists and ALL behaviours of the individual hints. *)
+   for ALL hint lists and ALL behaviours of the individual hints (a hint whose handler has not answered, HWaiting, included:
+   it counts as pending).  What happens after connect() has returned (late phase, timer) is ConnectLateProofs.v. *)
 From Coq Require Import ZArith List String Bool Lia.
 Import ListNotations.
 Require Import Verif.lib.PyLite Verif.lib.ConnectAll.
@@ -31,9 +32,11 @@ Lemma consider_fields beh h s :
   (forall h', status_of h' (statuses (consider beh h s)) =
               if list_eqb h' h then Some (expected_status (beh h)) else status_of h' (statuses s)).
 Proof.
-  unfold consider. destruct (beh h) as [|e|e]; cbn [is_pending expected_status].
+  unfold consider. destruct (beh h) as [| |e|e]; cbn [is_pending expected_status].
   - split; [reflexivity|]. split; [reflexivity|]. split; [reflexivity|].
     intros h'. cbn [statuses add_pending good_hint status_of]. reflexivity.
+  - split; [reflexivity|]. split; [reflexivity|]. split; [reflexivity|].
+    intros h'. cbn [statuses add_pending resolving status_of]. reflexivity.
   - unfold connection_failed.
     match goal with |- context [check_for_failure ?x] => destruct (cff_fields x) as (A & _ & P & S & R) end.
     rewrite A, P, S, R. split; [reflexivity|]. split; [reflexivity|]. split; [reflexivity|].
@@ -46,7 +49,7 @@ Qed.
 
 (* ---- what the loop does to the bookkeeping, whatever the failure logic does *)
 Definition Jinv (beh : hstr -> houtcome) (s : cas) : Prop :=
-  forall h, In h (attempted s) -> beh h = HPending -> In h (pending s).
+  forall h, In h (attempted s) -> is_pending (beh h) = true -> In h (pending s).
 Definition Kinv (beh : hstr -> houtcome) (s : cas) : Prop :=
   forall h, In h (attempted s) -> status_of h (statuses s) = Some (expected_status (beh h)).
 
@@ -54,7 +57,7 @@ Lemma loop_books beh : forall l s, Jinv beh s -> Kinv beh s ->
   let r := connect_loop beh l s in
   (forall h, In h (attempted s) \/ In h l -> In h (attempted r)) /\
   (forall h, In h (pending s) -> In h (pending r)) /\
-  (forall h, In h (pending r) -> In h (pending s) \/ (In h l /\ beh h = HPending)) /\
+  (forall h, In h (pending r) -> In h (pending s) \/ (In h l /\ is_pending (beh h) = true)) /\
   Jinv beh r /\ Kinv beh r.
 Proof.
   induction l as [|x rest IH]; intros s HJ HK; cbn [connect_loop].
@@ -76,7 +79,7 @@ Proof.
       assert (Hx : ~ In x (attempted s)) by (intros H; apply hmem_In in H; congruence).
       assert (J1 : Jinv beh (consider beh x s1)).
       { intros h. rewrite CA, CP. cbn [attempted pending s1]. intros [<-|H] Hb.
-        - rewrite Hb. cbn [is_pending]. left. reflexivity.
+        - rewrite Hb. left. reflexivity.
         - destruct (is_pending (beh x)); [right|]; apply HJ; assumption. }
       assert (K1 : Kinv beh (consider beh x s1)).
       { intros h. rewrite CA, CS. cbn [attempted statuses s1]. intros [<-|H].
@@ -87,7 +90,7 @@ Proof.
       * intros h [H|[<-|H]]; apply A; [left; right; exact H | left; left; reflexivity | right; exact H].
       * intros h H. apply P1. destruct (is_pending (beh x)); [right|]; exact H.
       * intros h H. destruct (P3 h H) as [H1|[H1 H2]]; [|right; split; [right; exact H1 | exact H2]].
-        destruct (beh x) eqn:B; cbn [is_pending] in H1; [|left; exact H1|left; exact H1].
+        destruct (is_pending (beh x)) eqn:B; [|left; exact H1].
         destruct H1 as [<-|H1]; [right; split; [left; reflexivity | exact B] | left; exact H1].
 Qed.
 
@@ -118,7 +121,8 @@ Lemma consider_inv beh h s : Iinv s ->
   (remaining s = [] -> (pending (consider beh h s) <> [] /\ Iinv (consider beh h s)) \/
                        (pending (consider beh h s) = [] /\ Finv (consider beh h s))).
 Proof.
-  intros HI. unfold consider. destruct (beh h) as [|e|e].
+  intros HI. unfold consider. destruct (beh h) as [| |e|e].
+  - split; [intros _; exact HI|]. intros _. left. split; [cbn; discriminate | exact HI].
   - split; [intros _; exact HI|]. intros _. left. split; [cbn; discriminate | exact HI].
   - unfold connection_failed.
     match goal with |- context [check_for_failure ?x] => set (y := x) end.
@@ -173,9 +177,9 @@ Proof.
   apply A. right. exact H.
 Qed.
 
-(* 2. a hint that yields a live endpoint is dialled -- no exception of another hint keeps it from being tried -- and
-      every hint ends with the status that its OWN outcome determines *)
-Theorem usable_hint_dialled : forall beh hints h, In h hints -> beh h = HPending ->
+(* 2. a hint that yields a live endpoint is dialled, one whose handler is still waiting is held (is_pending) -- no exception
+      of another hint keeps it from being tried -- and every hint ends with the status that its OWN outcome determines *)
+Theorem usable_hint_dialled : forall beh hints h, In h hints -> is_pending (beh h) = true ->
   In h (pending (connect_all beh hints)).
 Proof.
   intros beh hints h H Hb.
@@ -206,10 +210,10 @@ Proof.
   - left. split; [|auto]. unfold usable. apply existsb_exists.
     destruct (pending (connect_all beh hints)) as [|p ps] eqn:E; [congruence|].
     destruct (P3 p (or_introl eq_refl)) as [[]|[Hin Hb]].
-    exists p. rewrite Hb. auto.
+    exists p. auto.
   - right. split; [|auto]. unfold usable. destruct (existsb (fun h => is_pending (beh h)) hints) eqn:E; [|reflexivity].
-    apply existsb_exists in E as (h & Hin & Hb). destruct (beh h) eqn:B; try discriminate.
-    pose proof (usable_hint_dialled beh hints h Hin B) as H. rewrite P in H. destruct H.
+    apply existsb_exists in E as (h & Hin & Hb).
+    pose proof (usable_hint_dialled beh hints h Hin Hb) as H. rewrite P in H. destruct H.
 Qed.
 
 (* non-vacuity: a raising hint before and after a usable one; only raising hints; a duplicate *)
